@@ -231,6 +231,18 @@ def has_class(rec, prop, cls):
     return None
 
 
+def drop_items(field, items, i, j):
+    """items without [i:j]; for ops the removed gaps are added to the next op so that the
+    remaining operations keep their instants."""
+    cand = copy.deepcopy(items[:i] + items[j:])
+    if field == "ops" and i < len(cand):
+        carry = sum(((o.get("at") or {}).get("gap_ns") or 0) for o in items[i:j] if not (o.get("at") or {}).get("ref"))
+        at = cand[i].setdefault("at", {})
+        if carry and not at.get("ref"):
+            at["gap_ns"] = (at.get("gap_ns") or 0) + carry
+    return cand
+
+
 def ddmin(sc, plan, prop, cls, max_runs=250):
     """Delta-debug the plan's list fields while the same oracle class keeps firing."""
     runs = [0]
@@ -243,7 +255,7 @@ def ddmin(sc, plan, prop, cls, max_runs=250):
         return has_class(rec, prop, cls) is not None
 
     cur = copy.deepcopy(plan)
-    for field in ("ops", "stalls", "net_faults", "io_faults", "stream"):
+    for field in ("ops", "stalls", "net_faults", "io_faults", "stream", "reactions"):
         items = cur.get(field) or []
         if not items:
             continue
@@ -252,7 +264,7 @@ def ddmin(sc, plan, prop, cls, max_runs=250):
             chunk = max(1, len(items) // n)
             reduced = False
             for i in range(0, len(items), chunk):
-                cand = items[:i] + items[i + chunk:]
+                cand = drop_items(field, items, i, i + chunk)
                 p2 = copy.deepcopy(cur)
                 p2[field] = cand
                 if fails(p2):
@@ -503,6 +515,26 @@ def main(argv):
         return 2
     if argv[0] == "replay":
         return replay(argv[1])
+    if argv[0] == "minimize":
+        # verif minimize <plan.json> <property> <class> <out.json>
+        plan = json.load(open(argv[1]))
+        sc = Scratch()
+        try:
+            if not sc.build():
+                return 2
+            small, n = ddmin(sc, plan, argv[2], argv[3], max_runs=int(os.environ.get("VERIF_DDMIN_RUNS", "400")))
+            rec, code, err = run_plan(sc, small, keep_log=True)
+            v = has_class(rec, argv[2], argv[3])
+            if not v:
+                log("minimised plan does not reproduce")
+                return 2
+            small["expect"] = {"property": argv[2], "class": v["class"], "key": v.get("key"), "step": v.get("step"), "t_ns": v.get("t_ns"), "detail": v.get("detail", "")[:2000]}
+            small["code_rev"] = code_rev()
+            json.dump(small, open(argv[4], "w"), indent=1)
+            log("minimised to %d ops in %d runs" % (len(small.get("ops") or []), n))
+            return 0
+        finally:
+            sc.cleanup()
     if argv[0] == "selftest":
         import selftest
         return selftest.main(argv[1:])
